@@ -82,8 +82,15 @@ def _mutate_field(rng, d, k):
         e[k] = pol
     else:
         v = d[k]
-        how = rng.choice(["append", "case", "swap", "other"])
-        if how == "append" or not v:
+        how = rng.choice(["append", "case", "swap", "other", "middle", "middle"])
+        if how == "middle":           # same length, same first and last bytes
+            if len(v) < 5:
+                v = v + b"0123456789abcdef0123456789abcdef01234567"[:40 - len(v)]
+                d[k] = v
+                e[k] = v
+            i = rng.randrange(2, len(v) - 2)
+            e[k] = v[:i] + bytes([v[i] ^ rng.choice([1, 2, 0x20, 0x80])]) + v[i + 1:]
+        elif how == "append" or not v:
             e[k] = v + rng.choice([b"x", b" ", b"\x00", b"/"])
         elif how == "case":
             e[k] = v.swapcase() if v.swapcase() != v else v + b"X"
